@@ -885,6 +885,87 @@ def roundtrip(spec, fmt, via="arg"):
     return res
 
 
+import re
+
+_DATE_RE = re.compile(r"(\d{4})-(\d{2})-(\d{2})T(\d{2}:\d{2}:\d{2})\.(\d{6})")
+
+
+def _doy(m):
+    d = datetime(int(m.group(1)), int(m.group(2)), int(m.group(3)))
+    return f"{m.group(1)}-{d.timetuple().tm_yday:03d}T{m.group(4)}.{m.group(5)}"
+
+
+def variants(text, t, fmt):
+    """other texts a conforming producer could have written for the same object — the optional notations the readers accept
+    (default units, RTN for RSW, day-of-year dates, dates without fraction, comment and blank lines, acceleration columns,
+    range in seconds, theory named SGP4, centre in lower case); (name, text) pairs"""
+    out = []
+    if fmt == "kvn":
+        v = re.sub(r"[ ]*\[[^\]\n]*\]$", "", text, flags=re.M)
+        if v != text:
+            out.append(("no-units", v))
+        lines = text.split("\n")
+        k = next(i for i, l in enumerate(lines) if l.startswith("ORIGINATOR"))
+        out.append(("comments", "\n".join(lines[:k + 1] + ["COMMENT generated for a test", "", "COMMENT second line = with [brackets]"] + lines[k + 1:])))
+        if t == "oem":
+            out.append(("accelerations", "\n".join(l + " 0.000001 -0.000002 0.000003" if _DATE_RE.match(l) and len(l.split()) == 7 else l for l in lines)))
+        if t == "tdm" and "RANGE_UNITS" in text:
+            c_kms = 299792.458
+            def rng_s(m):
+                return f"{m.group(1)}{float(m.group(2)) / c_kms:.15e}"
+            v = re.sub(r"^(RANGE +=\s+\S+ )(\S+)$", rng_s, text.replace("= km", "= s"), flags=re.M)
+            out.append(("range-seconds", v))
+        if t == "omm":
+            out.append(("theory-sgp4", text.replace("= SGP/SGP4", "= SGP4")))
+            out.append(("no-type-class", "\n".join(l for l in lines if not l.startswith(("EPHEMERIS_TYPE", "CLASSIFICATION_TYPE")))))
+        if t in ("opm", "oem"):
+            out.append(("centre-lower", text.replace("= EARTH", "= Earth")))
+    else:
+        v = re.sub(r' units="[^"]*"', "", text)
+        if v != text:
+            out.append(("no-units", v))
+        if t == "omm":
+            out.append(("theory-sgp4", text.replace(">SGP/SGP4<", ">SGP4<")))
+            out.append(("no-type-class", re.sub(r"\s*<(EPHEMERIS_TYPE|CLASSIFICATION_TYPE)>[^<]*</\1>", "", text)))
+        if t in ("opm", "oem"):
+            out.append(("centre-lower", text.replace(">EARTH<", ">Earth<")))
+    if "RSW" in text:
+        out.append(("rtn", re.sub(r"(REF_FRAME\s*=\s*|REF_FRAME>)RSW", r"\1RTN", text)))
+    out.append(("day-of-year", _DATE_RE.sub(_doy, text)))
+    body = text.split("ORIGINATOR", 1)[1]
+    if _DATE_RE.search(body) and all(m.group(5) == "000000" for m in _DATE_RE.finditer(body)):
+        out.append(("no-fraction", text.split("ORIGINATOR", 1)[0] + "ORIGINATOR" + _DATE_RE.sub(lambda m: m.group(0)[:-7], body)))
+    return [(n, v) for n, v in out if v != text]
+
+
+def check_variants(out, spec, fmt, r, feats):
+    """the reader side: every optional notation decodes to the same object, which can be written again"""
+    from beyond.io.ccsds import loads
+    t = spec["type"]
+    for name, text in variants(r["text"], t, fmt):
+        out.count(key=None, kind=f"{t}-{fmt}-variant", variant=name)
+        try:
+            back = loads(text)
+        except Exception as e:
+            out.fail(f"{t}-{fmt}-variant:{name}:{type(e).__name__}@{_site_ccsds(e)}", f"{t.upper()} {fmt}: the same message written with `{name}` is not read: {type(e).__name__} {str(e)[:100]}",
+                     {"spec": spec, "fmt": fmt, "variant": name, "features": feats}, observed=type(e).__name__, expected="same object")
+            continue
+        d = compare(r["canon1"], canon(back, spec))
+        if name == "range-seconds":
+            # what RANGE_UNITS = s means is the reader's business alone (the writers never produce it): outside the statement.
+            # (lead, not a C13 finding: tdm.py multiplies seconds by km * c with c in m/s — 1000 times too large)
+            d = [x for x in d if x[0] != "obs.value"]
+        if d:
+            out.fail(f"{t}-{fmt}-variant:{name}:{d[0][0]}", f"{t.upper()} {fmt}: the same message written with `{name}` decodes differently in field {d[0][0]}",
+                     {"spec": spec, "fmt": fmt, "variant": name, "features": feats}, observed=d[0][2], expected=d[0][1])
+        for f2 in ("kvn", "xml"):
+            try:
+                Fmt(f2, "arg").dumps(back)
+            except Exception as e:
+                out.fail(classify(f"{t}-redump-{f2}:{type(e).__name__}@{_site_ccsds(e)}", feats), f"{t.upper()} read from {fmt} written with `{name}` cannot be dumped as {f2}: {type(e).__name__}",
+                         {"spec": spec, "fmt": fmt, "variant": name, "refmt": f2, "features": feats}, observed=type(e).__name__, expected="text")
+
+
 def check_spec(out, spec, via="arg", kind="random"):
     """all clauses of the property on one generated object; failures go to `out`"""
     t = spec["type"]
@@ -906,6 +987,8 @@ def check_spec(out, spec, via="arg", kind="random"):
             out.fail(classify(f"{t}-{fmt}-restored:{tag}", feats), f"{t.upper()} {fmt}: field {d[0]} is not restored by loads(dumps(x))",
                      {"spec": spec, "fmt": fmt, "via": via, "features": feats}, observed=d[2], expected=d[1])
         loaded[fmt] = r
+        if kind != "replay-novariants":
+            check_variants(out, spec, fmt, r, feats)
         # anything that was read can be written again
         for f2 in ("kvn", "xml"):
             try:
@@ -1112,7 +1195,13 @@ def read_tables():
                 raise RuntimeError(f"covariance frame alias differs in {f}")
     t["covAliasIn"] = _alias_in(lc)
     # maneuvers
-    mk, mx = _alias_eq(_func(opm, "_dumps_kvn")), _alias_eq(_func(opm, "_dumps_xml"))
+    def deep(mod, name):
+        """alias rules of a writer and of the module-level helpers it calls (a refactoring may move the maneuver block into one)"""
+        fn = _func(mod, name)
+        local = {n.name for n in mod.body if isinstance(n, ast.FunctionDef)} - {name}
+        called = {c.func.id for c in ast.walk(fn) if isinstance(c, ast.Call) and isinstance(c.func, ast.Name) and c.func.id in local}
+        return sorted(set(_alias_eq(fn)) | {a for h in called for a in _alias_eq(_func(mod, h))})
+    mk, mx = deep(opm, "_dumps_kvn"), deep(opm, "_dumps_xml")
     if mk != mx:
         raise RuntimeError(f"maneuver frame alias differs between the OPM writers: {mk} vs {mx}")
     t["manAliasOut"] = mk
@@ -1193,12 +1282,15 @@ def read_tables():
                  "wrapTdmSegment": "segment" in w["tdm"], "wrapTdmObservation": "observation" in w["tdm"]}
     # ---- Generated/CcsdsExtTables.lean: what the written dates mean, constructor options of the objects written
     src = {f: open(os.path.join(CCSDS_DIR, f)).read() for f in ("opm.py", "oem.py", "tdm.py")}
-    t["scaleConv"] = {k: "change_scale" in src[k + ".py"] for k in ("opm", "oem", "tdm")}
+    # do the writers convert a date to the TIME_SYSTEM of the message: directly (`.change_scale(`) or through a helper of commons.py that does
+    csrc = open(os.path.join(CCSDS_DIR, "commons.py")).read()
+    helpers = [n.name for n in ast.walk(commons) if isinstance(n, ast.FunctionDef) and "change_scale" in ast.get_source_segment(csrc, n)]
+    t["scaleConv"] = {k: "change_scale" in src[k + ".py"] or any(re.search(r"\b%s\(" % h, src[k + ".py"]) for h in helpers) for k in ("opm", "oem", "tdm")}
     # attribute of a ContinuousMan printed as MAN_EPOCH_IGNITION: `date = man.<attr>` under `isinstance(man, ContinuousMan)`,
     # else the first element returned by the helper that holds that test
     attrs = set()
     for fn in [n for n in ast.walk(opm) if isinstance(n, ast.FunctionDef)]:
-        hits = [n for n in ast.walk(fn) if isinstance(n, ast.If) and "ContinuousMan" in ast.dump(n.test) and "isinstance" in ast.dump(n.test)]
+        hits = [n for n in ast.walk(fn) if isinstance(n, ast.If) and "id='ContinuousMan'" in ast.dump(n.test) and "isinstance" in ast.dump(n.test)]
         if not hits or fn.name.startswith("_loads"):
             continue
         found = set()
@@ -1208,7 +1300,8 @@ def read_tables():
                     found.add(b.value.attr)
         if not found:
             for n in ast.walk(fn):
-                if isinstance(n, ast.Return) and isinstance(n.value, ast.Tuple) and n.value.elts and isinstance(n.value.elts[0], ast.Attribute):
+                if isinstance(n, ast.Return) and isinstance(n.value, ast.Tuple) and n.value.elts and isinstance(n.value.elts[0], ast.Attribute) \
+                        and n.value.elts[0].attr in ("date", "start", "stop", "median"):
                     found.add(n.value.elts[0].attr)
         attrs |= found
     if len(attrs) != 1:
@@ -1402,12 +1495,18 @@ def corr_case(out, spec, via, kind):
 
 
 def _model_domain(spec):
-    """the structural model has no Keplerian maneuvers and no form of the points: those two options go through the `ext` operations"""
+    """the structural model has no Keplerian maneuvers, no form of the points and one time scale per message: those three options
+    go through the `ext` operations (kepl, form, stamp)"""
     if spec["type"] == "opm":
-        spec["mans"] = [m for m in spec["mans"] if m["kind"] in ("I", "C")]
+        spec["mans"] = [dict(m, scale=None) for m in spec["mans"] if m["kind"] in ("I", "C")]
     if spec["type"] == "oem":
         for s in spec["segs"]:
             s["form"] = "cartesian"
+            for p in s["points"]:
+                p["scale"] = None
+    if spec["type"] == "tdm":
+        for o in spec["obs"]:
+            o["scale"] = None
     return spec
 
 
